@@ -14,7 +14,8 @@ from core import impl as I
 from core.common import close
 
 ID = "C02"
-LEAN_MODULES = ["AcnProofs.C02", "AcnProofs.Lemmas.CodeTieBattery"]
+LEAN_MODULES = ["AcnProofs.C02"]
+TIE_MODULES = ["AcnProofs.Lemmas.CodeTieBattery"]
 DRIVER = "drv_C02"          # the shared `Acn.Sim` model + the spec sums of the theorems evaluated on the model
 REQUIRED_THEOREMS = [
     "Acn.C02.ledger_ideal", "Acn.C02.ledger_stepwise", "Acn.C02.ledger_continuous", "Acn.C02.ledger_zero_pilot",
